@@ -29,6 +29,11 @@ CLAIMS = {
  "C10": ("Safety clause only: the server calls setN only with an n validated to 1..254 that it took from a client SYN, the SYN echo on the wire carries "
          "the adopted n, the client completes only after a SYN with N equal to its own proposal (point assertion) and non-SYN packets change nothing.",
          "The convergence clause (a handshake eventually succeeds once the transport behaves) is liveness over timers and is not covered."),
+ "C12": ("Typestate clauses only: Close's once-body closes quit, sends FIN unless the peer already did, cancels the context, stops the send queue, "
+         "waits for the loops and stops every ticker created by start (ping, pong, resend); a second Close changes nothing; Send/Recv entered after "
+         "quit is closed return an error without touching the data channels; every blocking select of Send, Recv, both loops, both handshakes and the "
+         "resend syncer has an arm on a close-only quit channel or ctx.Done.",
+         "'returns within a bounded time' and the wake-up of blocked callers as scheduling facts are not covered; goroutines blocked inside user callbacks are not covered."),
  "C14": ("Send hands the send loop chunks that are consecutive windows of the message of 1..maxChunk bytes, exactly the last one flagged final "
          "(quantified loop invariant over the ghost channel log), one final packet for an empty message or when chunking is off, and nothing once "
          "it failed without the connection quitting; Recv appends each received chunk to the kept partial buffer, returns only after a final chunk "
